@@ -19,24 +19,32 @@ theorem seq_regions_in_reserve_sized_disjoint (off min max : Nat) (reqs : List (
   · exact List.Pairwise.imp (fun h => Or.inl h) I.2.2.1
   · intro q hq sp hsp; have := I.2.2.2 q hq sp hsp; omega
 
-example : holderRegions (runSeq 1000 1000 1100 [(40, .fail), (48, .fresh 7000), (0, .fail), (50, .fail), (20, .fail), (10, .fail)])
-    = [(1000, 40), (1040, 0), (1040, 50), (1090, 10)] := by decide
+example : holderRegions (runSeq 1000 1000 1100 [(40, .fail), (48, .fresh 7000), (0, .fail), (50, .fail), (20, .fail), (5, .fail)])
+    = [(1000, 40), (1040, 0), (1040, 50), (1090, 5)] := by decide
 
 /-- Clause "exhaustion is reported as an error instead of overrunning the reserve" (one caller at a time): a request
-    that does not fit behind the bump pointer fails and leaves the pointer where it was; one that fits succeeds at
-    the pointer and advances it by exactly the length; the pointer never passes `max`, however long the history. -/
+    that does not fit behind the bump pointer is refused and leaves the pointer where it was; a request that is served
+    gets exactly the bytes behind the pointer, which then advances by the length and stays inside the reserve; the
+    pointer never passes `max`, however long the history. -/
 theorem exhaustion_is_error_not_overrun (off min max len : Nat) (h1 : off ≤ max) (h2 : max < 9223372036854775808)
     (hl : len < 9223372036854775808) :
     (max < off + len → acquire .fail off min max len = (off, none)) ∧
-    (off + len ≤ max → acquire .fail off min max len = (off + len, some ⟨off, len, typeHolder⟩)) ∧
+    (∀ o sp, acquire .fail off min max len = (o, some sp) → sp = ⟨off, len, typeHolder⟩ ∧ o = off + len ∧ off + len ≤ max) ∧
     (∀ reqs : List (Nat × Mmap), (∀ r ∈ reqs, r.1 < 9223372036854775808) → offSeq off min max reqs ≤ max) := by
   have sp := acquireFromHolder_spec off min max len h1 h2 hl
-  refine ⟨fun h => by simp only [acquire, sp.2 h], fun h => by simp only [acquire, sp.1 h], ?_⟩
-  intro reqs hr
-  exact (seq_inv min max h2 reqs off h1 hr).1.2
+  refine ⟨fun h => by simp only [acquire, sp.2 h], ?_, ?_⟩
+  · intro o s hs
+    rcases acquire_cases .fail off min max len h1 h2 hl with ⟨a, e, _⟩ | ⟨_, hfit, e⟩ | ⟨_, o', _, _, e⟩
+    · cases e
+    · rw [e] at hs
+      simp only [Prod.mk.injEq, Option.some.injEq] at hs
+      exact ⟨hs.2.symm, hs.1.symm, hfit⟩
+    · rw [e] at hs; simp at hs
+  · intro reqs hr
+    exact (seq_inv min max h2 reqs off h1 hr).1.2
 
-example : (runSeq 1000 1000 1100 [(60, .fail), (60, .fail), (40, .fail), (1, .fail)]).map (·.2)
-    = [some ⟨1000, 60, typeHolder⟩, none, some ⟨1060, 40, typeHolder⟩, none] := by decide
+example : (runSeq 1000 1000 1100 [(60, .fail), (60, .fail), (30, .fail), (20, .fail)]).map (·.2)
+    = [some ⟨1000, 60, typeHolder⟩, none, some ⟨1060, 30, typeHolder⟩, none] := by decide
 
 /-- Clause "concurrent requests never receive overlapping regions … regions stay inside the reserve": for EVERY
     schedule of the micro-steps (load, check, atomic add, check, return) of ANY number of concurrent requesters,
